@@ -35,7 +35,7 @@ def run(ctx):
 
   # ---- C18.lockset
   op = [a for a in acc if a.store == '_OPERATIVE_CONFIG' and a.kind != 'init']
-  ctx.expect_at_least('access sites of the operative record', len(op), 3)
+  ctx.expect_at_least('access sites of the operative record', len(op), 2)
   rec_lock = None
   for a in op:
     if a.func is None:
